@@ -532,10 +532,10 @@ def evalAll (env : Env) : List Expr → Out (List Val)
   | [] => .val []
   | e :: r => (eval env e).bind fun v => (evalAll env r).bind fun vs => .val (v :: vs)
 
-/-- does the switch value equal one of the case values? -/
-def anyEquals (sv : Val) : List Val → Out Bool
+/-- does the switch value equal one of the case values?  (left to right, stopping at the first match) -/
+def matchAny (env : Env) (sv : Val) : List Expr → Out Bool
   | [] => .val false
-  | v :: r => (equalsV sv v).bind fun b => if b then .val true else anyEquals sv r
+  | e :: r => (eval env e).bind fun v => (equalsV sv v).bind fun b => if b then .val true else matchAny env sv r
 
 /-- the iterations of a loop: the variable and its helpers are bound in the body only -/
 def loopSpec (body : Env → Out Bytes) (env : Env) (var : Bytes) (last : Nat) : List Val → Nat → Out Bytes
@@ -621,7 +621,7 @@ def renderCases : CaseList → Val → Env → Out Bytes
   | .nil, _, _ => .val []
   | .cons _ values body rest, sv, env =>
     if values.isEmpty then renderBlock body env
-    else (evalAll env values).bind fun vs => (anyEquals sv vs).bind fun hit =>
+    else (matchAny env sv values).bind fun hit =>
       if hit then renderBlock body env else renderCases rest sv env
 /-- the call's params, evaluated / rendered in the caller's environment (later ones first in the result) -/
 def renderParams : ParamList → Env → Out Binds
